@@ -109,3 +109,36 @@ package client
 //@ ensures len(c.sendErr) == old(len(c.sendErr)) + 1 && c.sendErr[old(len(c.sendErr))] == err
 //@ assigns c.sendErr
 //@ props C13 C11:lock
+
+//@ unit Client.handleModifyRequest
+//@ requires qsWF(c) && m != nil
+//@ requires[wire-valid] forall i in 0..len(m.Operation) :: m.Operation[i] != nil && oneofOK(m.Operation[i].Entry) && (m.Operation[i].GetMpls() != nil ==> oneofOK(m.Operation[i].GetMpls().Label))
+//@ ensures[all-pending] result0 == nil ==> (forall i in 0..len(m.Operation) :: m.Operation[i].Id in dom(c.qs.pendq.Ops))
+//@   && (m.ElectionId != nil ==> c.qs.pendq.Election != nil) && (m.Params != nil ==> c.qs.pendq.SessionParams != nil)
+//@ ensures[nothing-lost] forall k in old(dom(c.qs.pendq.Ops)) :: k in dom(c.qs.pendq.Ops) && c.qs.pendq.Ops[k] == old(c.qs.pendq.Ops[k])
+//@ ensures[wf] qsWF(c)
+//@ loop 1 at "range m.Operation" invariant qsWF(c) && (forall i in 0..loopi :: m.Operation[i].Id in dom(c.qs.pendq.Ops))
+//@ loop 1 invariant forall k in old(dom(c.qs.pendq.Ops)) :: k in dom(c.qs.pendq.Ops) && c.qs.pendq.Ops[k] == old(c.qs.pendq.Ops[k])
+//@ assigns contents(c.qs.pendq.Ops), c.qs.pendq.Election, c.qs.pendq.SessionParams
+//@ props C13
+
+//@ unit Client.handleModifyResponse
+//@ requires qsWF(c) && resultqWF(c) && held(c.qs.resultMu) == 0 && held(c.qs.pendMu) == 0
+//@ requires[wire-valid] m != nil ==> forall i in 0..len(m.Result) :: m.Result[i] != nil
+//@ ensures[nil] m == nil ==> result0 != nil
+//@ ensures[results-non-nil] resultqWF(c)
+//@ ensures[results-kept] len(c.qs.resultq) >= old(len(c.qs.resultq)) && (forall i in 0..old(len(c.qs.resultq)) :: c.qs.resultq[i] == old(c.qs.resultq[i]))
+//@ ensures[exclusive] m != nil && ((len(m.Result) != 0 && m.ElectionId != nil) || (len(m.Result) != 0 && m.SessionParamsResult != nil) || (m.ElectionId != nil && m.SessionParamsResult != nil))
+//@   ==> result0 != nil && len(c.qs.resultq) == old(len(c.qs.resultq)) && dom(c.qs.pendq.Ops) == old(dom(c.qs.pendq.Ops))
+//@ ensures[wf] qsWF(c)
+//@ loop 2 at "range m.Result" invariant qsWF(c) && resultqWF(c) && held(c.qs.resultMu) == 2 && held(c.qs.pendMu) == 0
+//@ loop 2 invariant len(c.qs.resultq) >= old(len(c.qs.resultq)) && (forall i in 0..old(len(c.qs.resultq)) :: c.qs.resultq[i] == old(c.qs.resultq[i]))
+//@ assigns c.qs.resultq, contents(c.qs.pendq.Ops), c.qs.pendq.Election, c.qs.pendq.SessionParams
+//@ props C13 C11:lock
+
+//@ unit Client.Results
+//@ requires c != nil
+//@ ensures[nil-queues] c.qs == nil ==> result1 != nil
+//@ ensures[copy] c.qs != nil ==> result1 == nil && len(result0) == len(c.qs.resultq) && (forall i in 0..len(result0) :: result0[i] == c.qs.resultq[i])
+//@ assigns nothing
+//@ props C13 C11:lock
